@@ -297,14 +297,19 @@ def D16_emptyBlock (c : FixCase) : Bool := c.adds == some [] && c.soleInBlock
 /-- **Class `elifHeader`**: the `elif` clause is re-generated from its `If` node as a new `if` statement. -/
 def D16_elifHeader (c : FixCase) : Bool := c.isElif && (match c.adds with | some (_ :: _) => true | _ => false)
 
-/-- **Class `walrusInRemoved`**: the unused-variable fix deletes a whole `target = value` statement because
-its *target list* is a single plain target — but the unused name is bound by a `:=` inside the value, and the
-statement's real target is lost with it. -/
-def D16_walrusInRemoved (c : FixCase) : Bool := c.adds == some [] && c.hasWalrus
+/-- **Former class `walrusInRemoved`** (repaired by 21e29d0; kept for the regression witness): the
+unused-variable fix deleted a whole `target = value` statement because its *target list* is a single plain
+target — although a `:=` inside the statement binds another name, which was lost with it. -/
+def oldD16_walrusInRemoved (c : FixCase) : Bool := c.adds == some [] && c.hasWalrus
 
-/-- **Class `fstringTail`**: `use_fstrings` on a template that ends in a newline drops the text between the
-last specifier and that newline (`"%s and %s!\n"` → `f"{a} and {c}\n"`). -/
-def D16_fstringTail (c : FixCase) : Bool := c.pctTail && (match c.adds with | some (_ :: _) => true | _ => false)
+/-- The guard of `_check_function_unused_vars` **before 21e29d0**: the shape of the target list only. -/
+def oldRemovalGuard (s : AssignStmt) (_u : String) : Bool :=
+  (s.targets.length == 1) && !((s.targets.nth 0).isKind ["List", "Tuple"])
+
+/-- **Former class `fstringTail`** (repaired by c3b1485; no longer printed by the driver — a recurrence is a
+new violation): `use_fstrings` on a template ending in a newline dropped the text between the last specifier
+and that newline (`"%s and %s!\n"` → `f"{a} and {c}\n"`). -/
+def oldD16_fstringTail (c : FixCase) : Bool := c.pctTail && (match c.adds with | some (_ :: _) => true | _ => false)
 
 /-- **Class `decoratedStmt`**: a decorated `def`/`class` is regenerated *with* its decorators, but only the
 lines from the `def` keyword on are replaced: the old decorator lines stay above the new ones. -/
@@ -319,7 +324,7 @@ def D16_fstringConversion (c : FixCase) : Bool := c.pctRisky && (match c.adds wi
 /-- The statement binds no name other than `u`. -/
 def soleBinding (s : AssignStmt) (u : String) : Bool := s.bound.all (· == u)
 
-/-- The statement binds a name through a `:=` (the model-level counterpart of `D16_walrusInRemoved`). -/
+/-- The statement binds a name through a `:=` (what the guard has to exclude; before 21e29d0 it did not). -/
 def bindsInValue (s : AssignStmt) : Bool := !s.valueBinds.isEmpty
 
 /-! ## Node-level fixes: the tree with exactly one node replaced -/
